@@ -1,7 +1,7 @@
 (* C05 — Query results equal a direct evaluation of the query over the data (tier T1: one entity, scalar
    fields with defaults / nullable, filters, order_by, first / skip, before / after).
    Property theorems only: statement, exact, Print Assumptions.  Proofs: proofs/C05*.v. *)
-From DV Require Import Eval Sql Nested Run_C05 C05Sort C05Order C05Sql C05P C05Pages C05Codec C05Wit C05Nested C05Top.
+From DV Require Import Eval Sql Nested Agg Run_C05 C05Sort C05Order C05Sql C05P C05Pages C05Codec C05Wit C05Nested C05Top C05Agg.
 
 (* (1) the default-aware filter form emitted by get_where_filters,
        CASE WHEN default op v THEN f op v OR f IS NULL ELSE f op v END,
@@ -170,3 +170,37 @@ Print Assumptions C05_T2_two_levels_ok.
 Example C05_T2_entity_ref_ok : spec_C05 w_nested_entity_ref (run_C05 w_nested_entity_ref) = true /\ known_C05 w_nested_entity_ref = [] /\ wf_C05 w_nested_entity_ref = [1; 1].
 Proof. exact w_nested_entity_ref_ok. Qed.
 Print Assumptions C05_T2_entity_ref_ok.
+
+(* ---- tier T3, first slice: aggregate queries and json selectors, at the level of results ----
+   agg_impl = what query.rs computes (every aggregate applied to the JSON text of the value), agg_spec = the aggregates
+   of the values.  Two classes are open: 9 (min / max compare texts), 10 (avg counts absent values as 0). *)
+Example C05_T3_minmax_refuted : spec_C05 w_K9_minmax (run_C05 w_K9_minmax) = false /\ known_C05 w_K9_minmax = [9].
+Proof. exact w_K9_minmax_refuted. Qed.
+Print Assumptions C05_T3_minmax_refuted.
+Example C05_T3_avg_refuted : spec_C05 w_K10_avg (run_C05 w_K10_avg) = false /\ known_C05 w_K10_avg = [10].
+Proof. exact w_K10_avg_refuted. Qed.
+Print Assumptions C05_T3_avg_refuted.
+(*     outside the two classes the whole answer (groups, having, order, first / skip) is the direct evaluation *)
+Theorem C05_T3_outside_known : forall rows q, known_C05 (CAgg rows q) = [] -> eval_agg agg_impl rows q = eval_agg agg_spec rows q.
+Proof. exact T3_outside_known. Qed.
+Print Assumptions C05_T3_outside_known.
+Theorem C05_T3_spec : forall rows q, known_C05 (CAgg rows q) = [] -> spec_C05 (CAgg rows q) (run_C05 (CAgg rows q)) = true.
+Proof. exact T3_spec. Qed.
+Print Assumptions C05_T3_spec.
+Theorem C05_T3_count_sum_holds : forall g a, match a with ACount | ASum _ => True | _ => False end -> agg_impl g a = agg_spec g a.
+Proof. exact T3_count_sum_holds. Qed.
+Print Assumptions C05_T3_count_sum_holds.
+Example C05_T3_nonvacuous : spec_C05 w_agg_having (run_C05 w_agg_having) = true /\ known_C05 w_agg_having = [] /\ wf_C05 w_agg_having = [1; 1].
+Proof. exact w_agg_having_ok. Qed.
+Print Assumptions C05_T3_nonvacuous.
+Example C05_T3_no_row_ok : spec_C05 w_agg_no_row (run_C05 w_agg_no_row) = true /\ known_C05 w_agg_no_row = [] /\ wf_C05 w_agg_no_row = [1; 1].
+Proof. exact w_agg_no_row_ok. Qed.
+Print Assumptions C05_T3_no_row_ok.
+(*     json selectors: the model of the implementation IS the reference evaluator (no independent model of the SQL at
+       this tier): the statement is tied to the code by the differential runs only *)
+Theorem C05_T3_jsel_partial : forall docs sels fs, spec_C05 (CJsel docs sels fs) (run_C05 (CJsel docs sels fs)) = true.
+Proof. exact T3_jsel_partial. Qed.
+Print Assumptions C05_T3_jsel_partial.
+Example C05_T3_jsel_ok : spec_C05 w_jsel (run_C05 w_jsel) = true /\ known_C05 w_jsel = [] /\ wf_C05 w_jsel = [1; 1].
+Proof. exact w_jsel_ok. Qed.
+Print Assumptions C05_T3_jsel_ok.
